@@ -451,18 +451,28 @@ pub(crate) fn c15_clones(threads_form: bool) {
   };
   let (pa, pb) = (fresh_probe(), fresh_probe());
   let mut unsubs: Vec<Option<Box<dyn FnOnce()>>> = vec![None, None];
+  let mut closed_q: Vec<Option<Box<dyn Fn() -> bool>>> = vec![None, None];
+  macro_rules! keep2 {
+    ($i:expr, $u:expr) => {{
+      let cell = std::rc::Rc::new(std::cell::RefCell::new(Some($u)));
+      let c2 = cell.clone();
+      closed_q[$i] = Some(Box::new(move || c2.borrow().as_ref().map_or(true, |u| u.is_closed())));
+      unsubs[$i] = Some(Box::new(move || {
+        let u = cell.borrow_mut().take();
+        if let Some(u) = u {
+          u.unsubscribe()
+        }
+      }));
+    }};
+  }
   if threads_form {
     let o = observable::defer(|| cat::hot_tagged_t(0)).finalize_threads(fin);
-    let ua = o.clone().actual_subscribe(pa);
-    let ub = o.clone().actual_subscribe(pb);
-    unsubs[0] = Some(Box::new(move || ua.unsubscribe()));
-    unsubs[1] = Some(Box::new(move || ub.unsubscribe()));
+    keep2!(0, o.clone().actual_subscribe(pa));
+    keep2!(1, o.clone().actual_subscribe(pb));
   } else {
     let o = observable::defer(|| cat::hot_tagged(0)).finalize(fin);
-    let ua = o.clone().actual_subscribe(pa);
-    let ub = o.clone().actual_subscribe(pb);
-    unsubs[0] = Some(Box::new(move || ua.unsubscribe()));
-    unsubs[1] = Some(Box::new(move || ub.unsubscribe()));
+    keep2!(0, o.clone().actual_subscribe(pa));
+    keep2!(1, o.clone().actual_subscribe(pb));
   }
   for (step, i) in [order, 1 - order].iter().enumerate() {
     WHICH.with(|w| w.set(*i));
@@ -489,6 +499,27 @@ pub(crate) fn c15_clones(threads_form: bool) {
     let want = if step == 0 { if *i == 0 { [1, 0] } else { [0, 1] } } else { [1, 1] };
     if runs != want {
       e::fail("finalize/clones/run-count", || format!("after ending subscription s{} the finalizer runs per subscription are {:?}, expected {:?}", i, runs, want));
+    }
+    if step == 0 {
+      // C17 on the subscription that is still live: if its handle says closed, nothing may arrive through it
+      let other = 1 - *i;
+      if let Some(q) = &closed_q[other] {
+        if q() {
+          e::note(format!("s{}.is_closed() -> true", other));
+          [pa, pb][other].forbid("finalize/clones/delivery-after-is_closed");
+        }
+      }
+      WHICH.with(|w| w.set(other));
+      let ev = Ev::Next(Val::var());
+      if threads_form {
+        if let Some(h) = cat::handle_t_nth(0, other) {
+          let mut h = h;
+          feed_t(&mut h, &ev);
+        }
+      } else if let Some(h) = cat::handle_nth(0, other) {
+        let mut h = h;
+        feed(&mut h, &ev);
+      }
     }
   }
   e::cover("c15-clones-path-complete");
@@ -878,7 +909,7 @@ pub fn harnesses() -> Vec<HarnessDef> {
   add("c01_chain_d2", vec!["C01"], "two catalogue stages, arbitrary events on every hot input",
     |t| format!("depth 2; {} arbitrary events; {}", if t { 4 } else { 3 }, if t { "exhaustive" } else { "seeded frontier sample" }),
     Box::new(|t| hot_chain(Mode::Grammar, 2, if t { 4 } else { 3 }, true)), 400_000, 40_000_000, true);
-  add("c15_clones", vec!["C15", "C13"], "finalize / finalize_threads cloned and subscribed twice over inputs of their own: each subscription runs the callback once, at its own end", |_| "2 subscriptions; each ended by complete / error / unsubscribe, in either order; both forms".to_string(), Box::new(|_| { c15_clones(e::choose_bool()) }), 10_000, 10_000, false);
+  add("c15_clones", vec!["C15", "C13", "C17"], "finalize / finalize_threads cloned and subscribed twice over inputs of their own: each subscription runs the callback once, at its own end", |_| "2 subscriptions; each ended by complete / error / unsubscribe, in either order; both forms".to_string(), Box::new(|_| { c15_clones(e::choose_bool()) }), 10_000, 10_000, false);
   add("c02_chain", vec!["C02"], "non-scheduler chains: unsubscribe() / guard drop at every position of an arbitrary event script; any later delivery is a violation; source-side handles must report closed",
     |t| format!("depth {}; {} events; cut at every position; unsubscribe() and SubscriptionGuard drop", if t { 2 } else { 1 }, if t { 4 } else { 4 }),
     Box::new(|t| hot_chain(Mode::Unsub, if t { 2 } else { 1 }, 4, true)), 600_000, 40_000_000, true);
@@ -937,6 +968,33 @@ impl Subscription for ChildSub {
   }
 }
 
+/// a child whose teardown registers a follow-up child in the composite it belongs to (what a finalizer may do)
+struct AppendingChild<C: Clone> {
+  id: usize,
+  late_id: usize,
+  composite: C,
+}
+impl Subscription for AppendingChild<MultiSubscription<'static>> {
+  fn unsubscribe(mut self) {
+    world::set_counter(30 + self.id, 1);
+    e::note(format!("  (child{}'s teardown appends child{} to the same composite)", self.id, self.late_id));
+    self.composite.append(BoxSubscription::new(ChildSub { id: self.late_id }));
+  }
+  fn is_closed(&self) -> bool {
+    world::counter(30 + self.id) != 0
+  }
+}
+impl Subscription for AppendingChild<MultiSubscriptionThreads> {
+  fn unsubscribe(mut self) {
+    world::set_counter(30 + self.id, 1);
+    e::note(format!("  (child{}'s teardown appends child{} to the same composite)", self.id, self.late_id));
+    self.composite.append(BoxSubscriptionThreads::new(ChildSub { id: self.late_id }));
+  }
+  fn is_closed(&self) -> bool {
+    world::counter(30 + self.id) != 0
+  }
+}
+
 fn c17_composite(threads_form: bool, nops: usize) {
   let mut local = MultiSubscription::default();
   let mut shared = MultiSubscriptionThreads::default();
@@ -945,7 +1003,22 @@ fn c17_composite(threads_form: bool, nops: usize) {
   let mut closed_seen = false;
   e::note(if threads_form { "MultiSubscriptionThreads".to_string() } else { "MultiSubscription".to_string() });
   'ops: for _ in 0..nops {
-    match e::choose(5) {
+    match e::choose(6) {
+      5 => {
+        // a child whose own teardown appends one more child (ids 8, 9 are the late ones)
+        if children >= 3 || unsubscribed {
+          break 'ops;
+        }
+        let id = children;
+        children += 1;
+        e::note(format!("append child{} (its teardown appends child{})", id, 8));
+        if threads_form {
+          shared.append(BoxSubscriptionThreads::new(AppendingChild { id, late_id: 8, composite: shared.clone() }));
+        } else {
+          local.append(BoxSubscription::new(AppendingChild { id, late_id: 8, composite: local.clone() }));
+        }
+        world::set_counter(29, 1);
+      }
       0 => {
         if children >= 3 {
           break 'ops;
@@ -974,6 +1047,10 @@ fn c17_composite(threads_form: bool, nops: usize) {
           if world::counter(30 + id) == 0 {
             e::fail("composite/child-not-unsubscribed", || format!("unsubscribe() left child{} running", id));
           }
+        }
+        // what a teardown appended meanwhile is a late addition: unsubscribed at once
+        if world::counter(29) == 1 && world::counter(30 + 8) == 0 {
+          e::fail("composite/late-addition-left-running", || "the child appended by another child's teardown (during unsubscribe()) was not unsubscribed".to_string());
         }
       }
       2 => {
